@@ -656,16 +656,17 @@ def check_json(text_res, expected, html_safe):
 # re-entrancy programs (tid 200): Serialize impls that convert other data while a conversion runs
 # ------------------------------------------------------------------------------------------
 PROG_TID = 200
-N_INT, N_EMB, N_PROBE, N_SEQ, N_TUPLE, N_MAP, N_STRUCT, N_NVAR, N_TVAR, N_SVAR, N_SOME, N_NESTED, N_DROP, N_CATCH, N_THREAD, N_FAIL, N_PANIC = range(17)
+N_INT, N_EMB, N_PROBE, N_SEQ, N_TUPLE, N_MAP, N_STRUCT, N_NVAR, N_TVAR, N_SVAR, N_SOME, N_NESTED, N_DROP, N_CATCH, N_THREAD, N_FAIL, N_PANIC, N_LEAK, N_FLATTEN = range(19)
 N_NAMES = ["int", "embedded", "probe", "seq", "tuple", "map", "struct", "newtype-variant", "tuple-variant", "struct-variant", "some",
-           "nested-conversion", "nested-conversion(dropped)", "nested-conversion(catch_unwind)", "conversion-on-other-thread", "fail", "panic"]
+           "nested-conversion", "nested-conversion(dropped)", "nested-conversion(catch_unwind)", "conversion-on-other-thread", "fail", "panic",
+           "value-handed-to-foreign-serializer(handle left behind)", "serde(flatten)-on-value(fails, handle left behind)"]
 COMPOUND = (N_SEQ, N_TUPLE, N_MAP, N_STRUCT, N_TVAR, N_SVAR)
 UNARY = (N_NVAR, N_SOME, N_NESTED, N_DROP, N_CATCH, N_THREAD)
 
 
 def enc_node(n):
     k = n[0]
-    if k == N_INT or k == N_EMB: return [k, n[1]]
+    if k in (N_INT, N_EMB, N_LEAK, N_FLATTEN): return [k, n[1]]
     if k in COMPOUND:
         out = [k, len(n[1])]
         for x in n[1]: out += enc_node(x)
@@ -678,6 +679,7 @@ def show_node(n):
     k = n[0]
     if k == N_INT: return n[1]
     if k == N_EMB: return "template-value#%d" % n[1]
+    if k in (N_LEAK, N_FLATTEN): return {N_NAMES[k]: "template-value#%d" % n[1]}
     if k in COMPOUND: return {N_NAMES[k]: [show_node(x) for x in n[1]]}
     if k in UNARY: return {N_NAMES[k]: show_node(n[1])}
     return N_NAMES[k]
@@ -725,8 +727,21 @@ def gen_progs(chk):
               [(N_SEQ, [(N_CATCH, (N_PANIC,)), E(0), (N_PROBE,)]), after],
               [(N_MAP, [(N_THREAD, (N_PANIC,)), E(1), (N_PROBE,)]), (N_PANIC,), after], [after, after, after]]
 
+    # histories on one thread: conversions that leave handles behind, then conversions with embedded values
+    L, F = (lambda k: (N_LEAK, k)), (lambda k: (N_FLATTEN, k))
+    leakers = [(N_STRUCT, [L(4), (N_INT, 1)]), F(9), (N_SEQ, [F(4), E(0)]), (N_SEQ, [L(0), (N_PANIC,)]), (N_SEQ, [L(2), (N_FAIL,)]),
+               (N_MAP, [(N_NESTED, (N_SEQ, [L(5)])), E(1)]), (N_SEQ, [L(4), L(9), F(3)]), (N_THREAD, (N_SEQ, [L(4)])),
+               (N_SEQ, [(N_CATCH, (N_SEQ, [L(8), (N_PANIC,)])), E(0)]), (N_STRUCT, [E(0), L(4), E(2), F(5), E(1), (N_PROBE,)])]
+    followers = [after, (N_MAP, [E(0), E(2)]), (N_SEQ, [E(1), E(8), E(7)]), (N_NVAR, E(0)), (N_SVAR, [E(6), E(2)]),
+                 (N_TUPLE, [(N_NESTED, (N_STRUCT, [E(8), E(1)])), E(0)]), E(0), (N_SOME, E(2))]
+    for lk in leakers:
+        for fo in followers:
+            progs.append([lk, fo])
+    progs += [[leakers[0], leakers[1], after, leakers[3], after], [leakers[6], leakers[6], after, after], [after, leakers[2], after]]
+
     def rnd(depth):
-        w = r.below(20)
+        w = r.below(22)
+        if w >= 20: return (N_LEAK, r.below(NPOOL)) if w == 20 else (N_FLATTEN, r.below(NPOOL))
         if depth >= 4 or w < 6: return [E(r.below(NPOOL)), E(r.below(3)), (N_PROBE,), (N_INT, r.below(100))][r.below(4)]
         if w < 12: return (r.choice(COMPOUND), [rnd(depth + 1) for _ in range(1 + r.below(4))])
         if w < 18: return (r.choice(UNARY), rnd(depth + 1))
@@ -766,6 +781,10 @@ def evaluate_progs(chk, cases, progs, A):
         nested = n is not None and any(has_kind(t, (N_NESTED, N_DROP, N_CATCH, N_THREAD)) for t in n)
         A["hist"]["prog:" + ("nested conversions" if nested else "no nesting")] += 1
         if n is not None and any(has_kind(t, (N_PANIC, N_FAIL)) for t in n): A["hist"]["prog:with failing/panicking part"] += 1
+        leaky = n is not None and any(has_kind(t, (N_LEAK, N_FLATTEN)) for t in n)
+        if leaky:
+            A["hist"]["prog:history with handles left behind"] += 1
+            A["nontriv"].add(hashlib.sha256(fmt_case(c).encode()).digest()[:12])
         if nested: A["nontriv"].add(hashlib.sha256(fmt_case(c).encode()).digest()[:12])
         for rel in (False, True):
             prof = "release" if rel else "debug"
@@ -792,11 +811,109 @@ def decode_prog(case):
     p = P(case, 2)
     def node():
         k = p.n()
-        if k in (N_INT, N_EMB): return (k, p.n())
+        if k in (N_INT, N_EMB, N_LEAK, N_FLATTEN): return (k, p.n())
         if k in COMPOUND: return (k, [node() for _ in range(p.n())])
         if k in UNARY: return (k, node())
         return (k,)
     return [node() for _ in range(p.n())]
+
+
+# ------------------------------------------------------------------------------------------
+# JSON of every iterable kind (tid 201): template expressions over the context of c16.rs::json_ctx
+# ------------------------------------------------------------------------------------------
+JSON_TID = 201
+# sources: l list, tup tuple, sl list of hostile strings, m map, one / one_s one-shot iterators, lazy sized iterable,
+# lazy0 / skipw / obj iterables that do not know their length (lower size bound 0)
+SOURCES = ["l", "tup", "sl", "lazy", "lazy0", "skipw", "obj", "one", "one_s", "range(3)", "range(0)", "m|items", "m|dictsort", "m|list",
+           "'a<b'|list", "l[1:]", "l[::-1]", "l[::2]", "lazy0[1:]", "lazy[:2]", "obj[::-1]", "sl[-2:]"]
+ADAPTERS = ["%s", "%s|list", "%s|reverse", "%s|chain(range(2))", "%s|chain(sl)", "[]|chain(%s)", "l|chain(%s)", "%s|zip(l)", "lazy0|zip(%s)",
+            "%s|map('string')", "%s|select('defined')", "%s|reject('none')", "%s|batch(2)", "%s|slice(2)", "%s|unique", "%s|map('string')|sort",
+            "%s|map('string')|select('ne', '1')", "(%s)[1:]", "(%s)[::-1]"]
+NESTERS = ["%s", "{'rows': %s, 'n': 1}", "[%s, l]", "{'a': {'b': [%s]}}", "[[%s], {'k': (%s)}]" ]
+EXTRA = ["l|select('odd')", "l|reject('odd')", "l|map('abs')", "lazy0|select('even')|map('string')", "m|items|map('first')", "m|items|map('last')|select('odd')",
+         "m|dictsort(reverse=true)", "sl|map('upper')", "sl|reverse|chain(one_s)", "one|chain(one_s)", "l|zip(sl, lazy0)", "m", "{'m': m, 'i': m|items}",
+         "l|batch(2)|map('list')", "lazy0|slice(3)", "l|sort|reverse", "sl|unique|chain(obj)", "one|list", "skipw|zip(obj)|reverse"]
+DATA = [[], [5], [3, -1, 2, 7], [0, 0, 1], [-4, -2, 9, 9, 10, 1]]
+
+
+def json_case(expr, d):
+    return [JSON_TID, 0] + enc_str(expr) + [len(d)] + list(d)
+
+
+def gen_json_exprs(chk):
+    exprs = []
+    for src in SOURCES:
+        for ad in ADAPTERS:
+            exprs.append(ad % src)
+    for e in list(EXTRA):
+        exprs.append(e)
+    base = list(exprs)
+    r = chk.rng
+    for e in base:
+        if chk.thorough or r.chance(1, 4):
+            ne = r.choice(NESTERS[1:])
+            exprs.append(ne.replace("%s", e))
+    cases, meta = [], []
+    for e in exprs:
+        ds = DATA if chk.thorough else [DATA[2], r.choice(DATA)]
+        for d in ds:
+            cases.append(json_case(e, d)); meta.append((e, d))
+    return cases, meta
+
+
+def parse_json_expr(out):
+    if not out or out[0] != 0: return None
+    try:
+        p = P(out, 1)
+        d = {"shape": parse_shape(p)}
+        for leg in ("tojson", "indent", "json", "js", "yaml"): d[leg] = parse_text(p)
+        return d if p.i == len(out) else None
+    except (ValueError, IndexError):
+        return None
+
+
+def flat_ints(sh):
+    return sh[0] == 'seq' and all(x[0] in ('i64', 'u64') for x in sh[2])
+
+
+def evaluate_json_exprs(chk, cases, meta, A):
+    impl = {rel: run_impl("c16", cases, release=rel) for rel in (False, True)}
+    arr_idx, arr_cases = [], []
+    for i, c in enumerate(cases):
+        d = parse_json_expr(impl[False][i])
+        if d and flat_ints(d["shape"]):
+            arr_idx.append(i); arr_cases.append([1, len(d["shape"][2])] + [t for x in d["shape"][2] for t in enc_str(str(x[1]))])
+    arr_model = dict(zip(arr_idx, run_model("C16", "c16-array", arr_cases))) if arr_idx else {}
+    A["json_array_texts_compared_with_model"] = A.get("json_array_texts_compared_with_model", 0) + len(arr_idx)
+    for i, c in enumerate(cases):
+        expr, data = meta[i]
+        for rel in (False, True):
+            prof = "release" if rel else "debug"
+            d = parse_json_expr(impl[rel][i])
+            if d is None:
+                if impl[rel][i][:1] == [1]:
+                    if not rel: A["hist"]["jsonexpr:expression does not evaluate (%s)" % ERR_NAMES.get(impl[rel][i][1], impl[rel][i][1])] += 1
+                else:
+                    A["viol"].append((c, None, prof, "crash", "evaluating or rendering crashed: %r" % (impl[rel][i][:3],), {"expr": expr, "l": data}))
+                continue
+            try:
+                exp = json_expected(d["shape"])
+            except NoJson as e:
+                if not rel: A["hist"]["jsonexpr:not-applicable (%s)" % e] += 1
+                continue
+            for leg, safe, what in (("tojson", True, "{{ (%s)|tojson }}"), ("indent", True, "{{ (%s)|tojson(indent=2) }}"),
+                                    ("json", False, "{{ %s }} in a .json template"), ("js", False, "{{ %s }} in a .js template"),
+                                    ("yaml", False, "{{ %s }} in a .yaml template")):
+                if not safe and d["shape"][0] == 'str' and d["shape"][1] == 1: continue
+                why = check_json(d[leg], exp, safe)
+                if why:
+                    A["viol"].append((c, None, prof, "json", "%s: %s" % (what % expr, why), {"expr": expr, "l": data, "output": d[leg][1] if d[leg][0] == 'ok' else None}))
+            if i in arr_model and d["tojson"][0] == 'ok':
+                if [0, len(d["tojson"][1])] + [ord(ch) for ch in d["tojson"][1]] != arr_model[i]:
+                    A["corr_bad"].append((c, prof, "JSON array text", impl[rel][i], arr_model[i]))
+            if not rel:
+                A["hist"]["jsonexpr:checked"] += 1
+                A["nontriv"].add(hashlib.sha256(fmt_case(c).encode()).digest()[:12])
 
 
 # ------------------------------------------------------------------------------------------
@@ -865,12 +982,15 @@ def main():
         rp = json.load(open(chk.replay))
         cases = [rp["replay"]["case"]]
         trees, nrand = [None], 0
-        pcases, progs = [], []
+        pcases, progs, jcases, jmeta = [], [], [], []
         if cases[0][0] == PROG_TID:
             pcases, progs, cases, trees = cases, [decode_prog(cases[0])], [], []
+        elif cases[0][0] == JSON_TID:
+            jcases, jmeta, cases, trees = cases, [(rp["replay"].get("expr", "?"), rp["replay"].get("l", []))], [], []
     else:
         cases, trees, nrand = gen_cases(chk)
         pcases, progs = gen_progs(chk)
+        jcases, jmeta = gen_json_exprs(chk)
 
     A = {"hist": collections.Counter(), "nontriv": set(), "corr_bad": [], "viol": [], "py_spec_bad": [], "nstr": 0,
          "kernel_ok": True, "kernel_n": 0, "prog_model_vs_spec": []}
@@ -879,9 +999,13 @@ def main():
         evaluate(cases[lo:lo + CH], trees[lo:lo + CH], A, kernel=(lo == 0))
     for lo in range(0, len(pcases), CH):
         evaluate_progs(chk, pcases[lo:lo + CH], progs[lo:lo + CH], A)
+    for lo in range(0, len(jcases), CH):
+        evaluate_json_exprs(chk, jcases[lo:lo + CH], jmeta[lo:lo + CH], A)
     hist, nontriv, corr_bad, viol, py_spec_bad, kernel_ok = A["hist"], A["nontriv"], A["corr_bad"], A["viol"], A["py_spec_bad"], A["kernel_ok"]
 
-    chk.cov["evaluations"] = (len(cases) + len(pcases)) * 2
+    chk.cov["evaluations"] = (len(cases) + len(pcases) + len(jcases)) * 2
+    chk.cov["json_iterable_expressions"] = len(jcases)
+    chk.cov["json_array_texts_compared_with_model"] = A.get("json_array_texts_compared_with_model", 0)
     chk.cov["reentrancy_programs"] = len(pcases)
     chk.cov["reentrancy_model_vs_spec_disagreements"] = len(A["prog_model_vs_spec"])
     chk.cov["distinct_nontrivial"] = len(nontriv)
@@ -891,8 +1015,12 @@ def main():
                        "quote, backslash, HTML or non-ASCII character; plus %d re-entrancy programs (Serialize impls that perform Value::from(Serde(..)) "
                        "before/between/after embedded values in struct fields, seq items, map values and enum payloads, two levels deep, failing, panicking, "
                        "on another thread; several conversions in a row on one thread, also after a failed one; serializing_for_value() probed inside and outside), "
-                       "non-trivial when they contain a nested conversion"
-                       % (nrand, len(TYPES), A["nstr"] - sum(1 for t in trees[:nrand] if t and t[0] == STRING_TID), "all" if chk.thorough else "a quarter", len(pcases)))
+                       "non-trivial when they contain a nested conversion or a history with handles left behind (value handed to a foreign serializer, "
+                       "serde(flatten) on a value, conversion failing/panicking after registering a handle) followed by conversions with embedded values; "
+                       "plus %d template expressions x data over every iterable kind (list, tuple, sized / unsized / one-shot iterables, dynamic iterable object, "
+                       "range, slices, reversed, dict views, chain/zip/map/select/reject/batch/slice/unique/sort results, nested in maps and lists) rendered by "
+                       "tojson, tojson(indent=2) and .json/.js/.yaml auto-escaping, each parsed and compared with the value"
+                       % (nrand, len(TYPES), A["nstr"] - sum(1 for t in trees[:nrand] if t and t[0] == STRING_TID), "all" if chk.thorough else "a quarter", len(pcases), len(jcases)))
     chk.cov["exhaustive"] = False
     chk.cov["samples"] = [{"type": TYPES[trees[i][0]][0], "value": show(trees[i][1])} for i in
                           sorted(set([0, len(cases) // 5, len(cases) // 3, len(cases) // 2, max(0, nrand - 1), len(cases) - 1])) if 0 <= i < len(trees) and trees[i] is not None]
@@ -912,10 +1040,11 @@ def main():
         reported.add((tuple(case), why))
         seen_kinds[kind] += 1
         if seen_kinds[kind] > 3: continue
-        rep = {"case": case, "type": TYPES[tid_of(case)][0] if tid_of(case) in TYPES else "re-entrancy program", "profile": prof, "why": why,
+        rep = {"case": case, "type": TYPES[tid_of(case)][0] if tid_of(case) in TYPES else ("re-entrancy program" if tid_of(case) == PROG_TID else "template expression"), "profile": prof, "why": why,
                "how": "./check C16 --replay <this file>"}
         if tree is not None: rep["value"] = show(tree[1])
-        if len(ent) > 5 and ent[5] is not None: rep["conversions_on_one_thread"] = ent[5]
+        if len(ent) > 5 and isinstance(ent[5], dict): rep.update(ent[5])
+        elif len(ent) > 5 and ent[5] is not None: rep["conversions_on_one_thread"] = ent[5]
         if kind in ("HARNESS",):
             chk.violation("harness cannot build the case", dict(rep, theorem_or_correspondence="generator vs Rust type table"), True)
         else:
